@@ -265,6 +265,7 @@ class Walk(object):
         self.end = "fall"       # fall | return | raise
         self.last = None        # the Return / Raise node (resolved copy)
         self.raised_in_guard = None
+        self.raised_kind = None
         self.aliases = {}       # copy -> original name
 
     def texts(self):
@@ -287,16 +288,96 @@ class Walk(object):
         return out
 
 
-def walk(stmts, F, where="?", rebind=None, strict=True):
+class _Raised(Exception):
+    def __init__(self, kind, st):
+        Exception.__init__(self, kind)
+        self.kind, self.st = kind, st
+
+
+_EXC_BASES = {"IndexError": ("LookupError",), "KeyError": ("LookupError",), "ZeroDivisionError": ("ArithmeticError",),
+              "OverflowError": ("ArithmeticError",), "StopIteration": (), "AttributeError": (), "TypeError": (),
+              "ValueError": ()}
+
+
+def _catches(handler, kind):
+    if handler.type is None:
+        return True
+    names = [unparse(e) for e in handler.type.elts] if isinstance(handler.type, ast.Tuple) else [unparse(handler.type)]
+    return bool(set(names) & ({kind, "Exception", "BaseException"} | set(_EXC_BASES.get(kind, ()))))
+
+
+def walk(stmts, F, where="?", rebind=None, strict=True, flow=False, exc=None):
     """Walk ``stmts`` taking the branches the scenario ``F`` selects.  ``rebind(name, value_expr, F)`` is called for
     every assignment to a plain name so that the scenario can follow a conversion (``other = Poly(other)``); without
     it the name is forgotten.  A guard the scenario does not describe raises AnalysisError (``strict``) - the rule then
-    says so instead of guessing."""
+    says so instead of guessing.
+
+    ``flow``: ``with`` bodies are walked (the ``with`` header is recorded as it stands, body emptied), ``try`` bodies
+    too - an expression listed in ``exc`` (source text -> exception name) raises when the statement holding it is
+    reached, and the walk goes on in the first handler that catches it - and ``break`` / ``continue`` end the walk
+    (``end`` = "break" / "continue")."""
     W = Walk()
     F = F.copy()
+    exc = dict(exc or {})
+
+    def raising_in(node):
+        if not exc:
+            return None
+        for n in ast.walk(node):
+            if isinstance(n, ast.expr) and not isinstance(getattr(n, "ctx", None), (ast.Store, ast.Del)):
+                k = exc.get(unparse(n))
+                if k is not None:
+                    return k
+        return None
 
     def run(block):
         for st in block:
+            if flow and isinstance(st, ast.With):
+                for it_ in st.items:
+                    k_ = raising_in(it_.context_expr)
+                    if k_ is not None:
+                        raise _Raised(k_, st)
+                hd = ast.With(items=st.items, body=[ast.Pass()], lineno=getattr(st, "lineno", 0), col_offset=0)
+                ast.fix_missing_locations(hd)
+                W.ran.append(hd)
+                if run(st.body):
+                    return True
+                continue
+            if flow and isinstance(st, ast.Try):
+                done = False
+                try:
+                    try:
+                        done = run(st.body)
+                    except _Raised as ex:
+                        hs = [h for h in st.handlers if _catches(h, ex.kind)]
+                        if not hs:
+                            raise
+                        done = run(hs[0].body)
+                    else:
+                        if not done:
+                            done = run(st.orelse)
+                finally:
+                    if st.finalbody:
+                        saved = (W.end, W.last)
+                        if run(st.finalbody):
+                            done = True
+                        elif done:
+                            W.end, W.last = saved
+                if done:
+                    return True
+                continue
+            if flow and isinstance(st, (ast.Break, ast.Continue)):
+                W.end = "break" if isinstance(st, ast.Break) else "continue"
+                W.ran.append(st)
+                return True
+            if flow and isinstance(st, ast.If):
+                k_ = raising_in(st.test) if holds(st.test, F) is None else None
+                if k_ is not None:
+                    raise _Raised(k_, st)
+            elif flow and not isinstance(st, (ast.For, ast.While) + (ast.FunctionDef, ast.AsyncFunctionDef, ast.ClassDef)):
+                k_ = raising_in(st)
+                if k_ is not None:
+                    raise _Raised(k_, st)
             if isinstance(st, ast.If):
                 r = holds(st.test, F)
                 if r is None:
@@ -363,5 +444,10 @@ def walk(stmts, F, where="?", rebind=None, strict=True):
             elif isinstance(st, ast.AugAssign) and isinstance(st.target, ast.Name):
                 F.forget(st.target.id)
         return False
-    run(list(stmts))
+    try:
+        run(list(stmts))
+    except _Raised as ex:
+        W.end = "raise"
+        W.raised_in_guard = ex.st
+        W.raised_kind = ex.kind
     return W
